@@ -1,6 +1,8 @@
 """shared harness for C10 / C11 / C12 / C40: a skeleton DEX whose method `f` is a template of concrete opcodes with
 symbolic branch offsets, switch targets, payload references and try/handler addresses; the real DEX() +
 MethodAnalysis run per path; obligations are stated against a declarative reference over the same symbolic fields."""
+import os
+import sys
 import random
 import struct
 import zlib
@@ -288,8 +290,9 @@ def build(t):
                 if 't%d_%d' % (i, j) in S:
                     pre.append(is_body_start(q('t%d_%d' % (i, j)) + uoff[i]))
         if 'r%d' % i in S:
-            allu = [z3.BitVecVal(x // 2, W) for x in starts_all]
-            pre.append(z3.Or([q('r%d' % i) + uoff[i] == x for x in allu]))
+            # any code unit of the method, instruction start or not (a reference into the middle of an instruction
+            # must link to nothing)
+            pre.append(z3.And(q('r%d' % i) + uoff[i] >= 0, q('r%d' % i) + uoff[i] < total_units))
     prev_end = None
     for j in range(len(t.tries)):
         ts, tc = q('ts%d' % j), q('tc%d' % j)
@@ -406,7 +409,7 @@ def curated():
         T(['c1', 'c2', 'goto32', 'c1', 'c3', 'c1', 'throw'], tries=[dict(start=0, end=2, handler=6), dict(start=3, end=5, handler=5)],
           sym={'ts0', 'tc0', 'th1'}, seed=6),
         T(['nop', 'ift', 'c2', 'c2', 'c1', 'ret'], tries=[dict(start=1, end=4, handler=4)], sym={'ts0', 'tc0', 'b1'}, seed=7),
-        T(['c1', 'fill', 'c1', 'pswitch', 'ifz', 'retv'], sym={'r1', 'r3', 'b4'}, seed=8),
+        T(['c1', 'fill', 'c1', 'pswitch', 'ifz', 'retv'], sym={'r1', 'r3'}, seed=8),
         T(['c1', 'sswitch', 'c1', 'fill', 'c1', 'retv'], sym={'r1', 'r3'}, seed=9, misaligned=True),
     ]
 
@@ -538,6 +541,8 @@ def job(jc, spec):
     R = reference(B)
     hook.ZL.value = int.from_bytes(B.blob[8:12], 'little')
     eng = jc.new_engine(pre=B.pre)
+    import time as _time
+    t_start = _time.time()
     total = 2 * B.total_units
     starts = B.starts_all
     label = '%s %s' % (which, '/'.join(t.body))
@@ -636,6 +641,9 @@ def job(jc, spec):
         jc.obligations(eng, pc, obs, ext, regions, label=label, what='%s: violated')
     eng.partition_guard()
     jc.sample(dict(template=t.describe(), paths=eng.st.paths), limit=6)
+    if os.environ.get('VERIF_TIMING'):
+        sys.stderr.write('TIMING %s %s sym=%s paths=%d queries=%d solver=%.1fs wall=%.1fs\n' % (
+            which, '/'.join(t.body), sorted(t.sym), eng.st.paths, eng.st.queries, eng.st.solver_s, _time.time() - t_start))
 
 
 def run(ctx, which):
@@ -644,7 +652,7 @@ def run(ctx, which):
     ts = templates(ctx.seed, count)
     if which == 'C40':
         ts = [t for t in ts if any(k in ('pswitch', 'sswitch', 'fill') for k in t.body)] + \
-             [t for i, t in enumerate(templates(ctx.seed + 1, count)) if any(s.startswith('r') for s in t.sym)]
+             [t for i, t in enumerate(templates(ctx.seed + 1, count)) if i >= len(curated()) and any(s.startswith('r') for s in t.sym)]
     else:
         # a symbolic payload reference changes which payload a switch uses: those templates belong to C40 only
         ts = [t for t in ts if not any(s.startswith('r') for s in t.sym)]
